@@ -859,6 +859,11 @@ func (f *FnVC) trCall(env *Env, x SCall) TV {
 		if a.Sort == sliceSort {
 			sl := a.Ty.Underlying().(*types.Slice)
 			eh := f.elemHeap(sl.Elem())
+			if b, ok := sl.Elem().Underlying().(*types.Basic); !ok || b.Kind() != types.Uint8 {
+				// string([]rune): the UTF-8 encoding of the runes (uninterpreted, the same symbol the code translation uses)
+				f.declFun("runes2str", []string{"(Array Int Int)", "Int", "Int"}, "Str")
+				return TV{sApp("runes2str", sSel(env.st.get(eh), "(s_ref "+a.T+")"), "(s_off "+a.T+")", "(s_len "+a.T+")"), strTy, "Str"}
+			}
 			return TV{f.strFromBytes(sSel(env.st.get(eh), "(s_ref "+a.T+")"), "(s_off "+a.T+")", "(s_len "+a.T+")"), strTy, "Str"}
 		}
 		sfail("string() of %s", a.Sort)
